@@ -56,6 +56,14 @@ let result (ms : (Datatypes.nat * marker) list option) pc with_xref px pt : stri
   | Res.Err Res.EOF -> "fail-eof"
   | Res.Err _ -> "fail-other"
 
+(* the same list of markers: the observation is then the same and need not be computed twice *)
+let same_markers a b = match a, b with
+  | Some x, Some y ->
+    (try Stdlib.List.for_all2 (fun (p, m) (q, n) -> int_of_nat p = int_of_nat q && m = n) x y
+     with Invalid_argument _ -> false)
+  | None, None -> true
+  | _ -> false
+
 let ideal_diff = ref 0
 let nfiles = ref 0
 let ntame = ref 0
@@ -110,7 +118,7 @@ let () =
       let w = result ms_w pc with_xref px pt in
       Printf.printf "%s %s\n" id w;
       let ms_i = scan_ideal data in
-      let i = if ms_i = ms_w then w else result ms_i pc with_xref px pt in
+      let i = if same_markers ms_i ms_w then w else result ms_i pc with_xref px pt in
       if i <> w then begin
         incr ideal_diff;
         if !ideal_diff <= 50 then Printf.fprintf (Lazy.force ideal_out) "%s\n  windows: %s\n  ideal  : %s\n" id w i
